@@ -134,4 +134,41 @@ def gen(rng, tier):
         if rng.random() < 0.3:
             c["faults"] = [[rng.choice([0, 1, 2, 3]), rng.choice(["stage", "unstage", "set", "stop"]), rng.choice([0, 1]), "EDev"]]
         out.append(c)
+    # monitors (ORACLE ONLY: monitors are not in the engine model, the encoder rejects subscribe/clear_sub and the
+    # cases are not sent to Coq): every subscription the engine installs on a device is removed by the time it is idle
+    out += monitor_cases(tier)
+    return out
+
+
+def p_mon(unmon, close, extra=None):
+    body = [m("open_run"), m("checkpoint"), m("monitor", 1), m("null"), m("monitor", 2), m("checkpoint"), m("null")]
+    if extra:
+        body.append(extra)
+    if unmon in ("both", "one"):
+        body.append(m("unmonitor", 1))
+    if unmon == "both":
+        body.append(m("unmonitor", 2))
+    if close:
+        body.append(m("close_run"))
+    return seq(*body)
+
+
+def monitor_cases(tier):
+    out = []
+    plans = [("closed", p_mon("none", True)), ("unmon", p_mon("both", True)), ("half", p_mon("one", True)),
+             ("open", p_mon("none", False)), ("raise", p_mon("none", True, ["raise", "EUser1"])),
+             ("tworuns", seq(p_mon("none", True), m("null"), p_mon("one", True))),
+             ("finally", ["tryfin", p_mon("none", False), seq(m("null"), m("close_run"))])]
+    for name, plan in plans:
+        out.append(base(plan, tag="c06 mon-%s plain" % name))
+        n = count_msgs(plan) + 3
+        for at in range(2, n + 1, 1 if tier == "thorough" else 3):
+            for r in ("abort", "halt", "stop"):
+                out.append(base(plan, inject=[{"at": at, "req": r}], tag="c06 mon-%s %s@%d" % (name, r, at)))
+            for sc in (["resume"], ["abort"]):
+                out.append(base(plan, inject=[{"at": at, "req": "pause"}], script=sc, tag="c06 mon-%s pause@%d %s" % (name, at, sc[0])))
+            out.append(base(plan, inject=[{"at": at, "req": "suspend"}, {"at": at + 3, "req": "release", "sid": 0}],
+                            tag="c06 mon-%s suspend@%d" % (name, at)))
+    out.append(base(None, calls=[p_mon("none", True), p_mon("one", True), p_mon("none", False)], tag="c06 mon-calls"))
+    del out[-1]["plan"]
     return out
